@@ -1,3 +1,3 @@
 SPECIFICATION Spec
-INVARIANTS NeverSilentlyFewer ErrorsOnlyWithoutIndex IndexUsedWhenIndexable ShortcutSound Export
+INVARIANTS NeverSilentlyFewer ErrorsOnlyWithoutIndex IndexUsedWhenIndexable ShortcutSound OrderedNeverByScan Export
 CHECK_DEADLOCK FALSE
